@@ -2,6 +2,7 @@ package main
 
 import (
 	"go/types"
+	"strings"
 
 	"golang.org/x/tools/go/ssa"
 )
@@ -16,12 +17,13 @@ func init() {
 				"(2) in the decode loop each iteration runs handler(record i) -> send(result i) -> advance, in this order, once each, the send being a synchronous blocking channel operation (not in a goroutine, timer or inner loop) - shared with C01.1; " +
 				"(3) nothing can reorder: no value containing an Event is stored into a slice, map, struct field or array element, appended, or sent on any channel other than Events anywhere in non-test code, no second chan Event is made outside the two constructors, and no sort call lies on the delivery path; " +
 				"(4) the channel's buffer size does not enter the logic: no len()/cap() of a channel anywhere in non-test code. " +
+				"On the kqueue backend (cross-compiled, freebsd/darwin) the part that carries over is checked: one reader goroutine and all sends from it, no buffering construct, no len/cap of a channel, and (C03.5) a Create synthesised under a Remove of the translated event is sent after that Remove on every path. " +
 				"Not decided: the kernel's own order; consumer pacing.",
 			Rule:        "obligations per go statement, per event-send site, per loop-order fact, per would-be buffering construct (expected count 0, with positive controls), per len/cap(chan) site",
 			Assumptions: []string{"go/types + go/ssa", "a blocking channel send in program order preserves order (Go channel FIFO semantics)"},
 			MinObl:      11,
 		},
-		Configs: tiered(linuxQuick, linuxAll),
+		Configs: tiered(concat(linuxQuick, []Config{{"freebsd", "amd64"}}), concat(linuxAll, kqueueQuick)),
 		Run:     runC03,
 	})
 }
@@ -29,6 +31,16 @@ func init() {
 func runC03(p *Program, e *Engine, r *Result, tier string) {
 	a := newAn(p, e, r, true)
 	if a == nil {
+		return
+	}
+	if strings.Contains(strings.Join(r.Files, " "), "backend_kqueue.go") {
+		// kqueue backend: the structural part that carries over - one reader goroutine, all sends from it, nothing that
+		// can hold an Event back, and the one place where the reader derives a second event from a kevent keeps the order
+		c03Goroutines(a)
+		c06Senders(a, "C03.1")
+		c03NoBuffering(a)
+		c03NoChanLen(a, "C03.4")
+		c18RemoveBeforeCreate(a, "C03.5")
 		return
 	}
 	df := decodeFacts(a)
